@@ -31,6 +31,7 @@ EXPLANATION = (
     "vMin to 0.99 (flux mismatch, boundary constants, success flag, template fallback).")
 
 RTOL = ATOL = 1e-6
+TOL_PAIRS = [(1e-6, 1e-6), (1e-6, 1e-10), (1e-6, 1e-10)]
 TMAX, TMIN = 10.0, 0.01
 # flux mismatch allowed, relative to the larger flux:  K_FLUX * delta * gamma_+^2 gamma_-^2,
 # delta = rtol + atol/T the relative accuracy requested from the root finders.  Calibrated on
@@ -134,7 +135,7 @@ def traced_thermo(case):
 
 def gen_case(rng, kind=None):
     kind = kind or rng.choice(["2step", "2step", "bag", "bag", "template", "template"])
-    unit = 10.0 ** rng.choice([-2, -1, 0, 0, 1, 2, 3]) * rng.choice([1.0, 1.0, 2.5])
+    unit = 10.0 ** rng.choice([-3, -3, -2, -1, 0, 0, 1, 2, 3]) * rng.choice([1.0, 1.0, 2.5])
     if kind == "2step":
         ab = round(rng.uniform(0.15, 0.3), 3)
         return dict(kind=kind, abrok=ab, asym=round(ab * rng.uniform(0.3, 0.7), 3),
@@ -752,13 +753,17 @@ def run(ctx):
     t0 = time.time()
     for m in range(nmodels):
         case = gen_case(rng)
+        # both the tests' setting rtol = atol = 1e-6 and the library defaults 1e-6 / 1e-10
+        # (rtol != atol: the two tolerances are distinguishable); kept in the case record
+        case["rtol"], case["atol"] = rng.choice(TOL_PAIRS)
         try:
             th = build_model(case)
-            h = make_hydro(th)
+            h = make_hydro(th, case["rtol"], case["atol"])
         except Exception as ex:
             ctx.count("model_rejected", bucket=type(ex).__name__)
             continue
-        ctx.count("model", case, bucket=case["kind"])
+        ctx.count("model", case, bucket="%s rtol=%g atol=%g" % (case["kind"], case["rtol"],
+                                                              case["atol"]))
         for vw in wall_velocities(rng, h, nvw):
             try:
                 check_point(ctx, case, th, h, vw, stats)
@@ -810,7 +815,8 @@ def run(ctx):
         "models: random bag (psi 0.5..0.98), two-step (a_broken 0.15..0.3, a_sym, mu^2) "
         "and template (alN 1e-3..0.3 above (1-psiN)/3, psiN 0.5..0.99, cb2<=cs2 in "
         "0.2..1/3) equations of state, nucleation temperature 0.5..0.97 Tc in units spanning "
-        "1e-2..2.5e3, plus a traced quartic potential; per model wall velocities at vMin, "
+        "1e-3..2.5e3, with (rtol,atol) = (1e-6,1e-6) or the library defaults (1e-6,1e-10), "
+        "plus a traced quartic potential; per model wall velocities at vMin, "
         "just below/above cs(-), just below/above vJ, 0.9..0.99, 0.99 and uniform; "
         "distinct = distinct (model, vw)")
     ctx.assumptions += [
@@ -826,7 +832,8 @@ def replay(rep):
     print(json.dumps({k: v for k, v in rep.items() if k != "case"}, indent=1))
     case, vw = rep["case"], rep["vw"]
     th = build_model(case)
-    h = make_hydro(th, rep.get("rtol", RTOL), rep.get("atol", ATOL))
+    h = make_hydro(th, rep.get("rtol", case.get("rtol", RTOL)),
+                   rep.get("atol", case.get("atol", ATOL)))
     if rep.get("solver") == "template":
         r = h.template.findMatching(vw)
         print("template.findMatching(%r) = %r" % (vw, r))
